@@ -45,13 +45,20 @@ struct Dumper
         return r;
     }
 
+    // position.h: "Both INT_MAX indicate an unknown location": a position is unknown only when start AND end carry
+    // the sentinel. A real token that merely starts or ends at offset 2^31-1 is an ordinary position (the library
+    // itself never tests the sentinel), so it is printed like any other.
+    static bool is_unknown(const position_t& p)
+    {
+        return p.start == (uint32_t)position_t::unknown_pos && p.end == (uint32_t)position_t::unknown_pos;
+    }
     std::string pos1(uint32_t p)
     {
-        if (p == (uint32_t)position_t::unknown_pos)
-            return "?";
         try {
             const auto& l = doc.find_position(p);
             std::string r;
+            if (!o.mask_path.empty() && l.path && *l.path == o.mask_path)
+                return "<in-masked-block>";
             if (o.paths)
                 r += (l.path ? *l.path : std::string{"<null>"}) + ":";
             r += std::to_string(l.line) + ":" + std::to_string(p - l.position);
@@ -64,6 +71,8 @@ struct Dumper
     {
         if (!o.positions)
             return "";
+        if (is_unknown(p))
+            return "@?-?";
         return "@" + pos1(p.start) + "-" + pos1(p.end);
     }
 
@@ -110,7 +119,7 @@ struct Dumper
         }
         os << s.get_name();
         if (o.positions)
-            os << "@" << pos1(s.get_position().start);
+            os << "@" << (is_unknown(s.get_position()) ? std::string{"?"} : pos1(s.get_position().start));
         os << ":";
         type(s.get_type(), depth + 4);
     }
@@ -376,7 +385,11 @@ struct Dumper
                 if (global && builtin_sym(s))
                     continue;
                 auto k = s.get_type().get_kind();
-                // instances, processes, templates are dumped elsewhere; locations too
+                // In the declaration-prefix comparison (C16) only declarations count: the symbols of templates,
+                // instances and processes have types that mirror the *whole* frame of their template (so they
+                // change legitimately when a later declaration is lost) and come from blocks that follow.
+                if (o.mask_decl_templ != -2 && (k == INSTANCE || k == LSC_INSTANCE || k == PROCESS || k == PROCESS_SET))
+                    continue;
                 if (keep >= 0 && shown >= keep)
                     break;
                 ++shown;
@@ -591,6 +604,7 @@ struct Dumper
             diags();
         }
         const auto& sm = doc.get_supported_methods();
+        if (o.mask_decl_templ == -2) {  // document-wide verdicts depend on every declaration, also on the faulted one
         os << "\nsupported: " << sm.symbolic << sm.stochastic << sm.concrete;
         os << "\nflags: prio=" << doc.has_priority_declaration() << " strictinv=" << doc.has_strict_invariants()
            << " stopwatch=" << doc.has_stop_watch()
@@ -598,6 +612,7 @@ struct Dumper
            << " guardrecv=" << doc.has_clock_guard_recv_broadcast() << " sync=" << doc.get_sync_used()
            << " urgtrans=" << doc.has_urgent_transition() << " dyn=" << doc.has_dynamic_templates()
            << " allbcast=" << doc.all_broadcast() << " modified=" << doc.is_modified() << " obsTA=" << doc.obsTA;
+        }
         os << "\nglobals:";
         if (o.mask_decl_templ == -1) {
             decls(doc.get_globals(), true, 0);
@@ -686,7 +701,7 @@ std::vector<DiagView> view_diagnostics(Document& doc)
         d.eline = e.end.line;
         d.scol = e.position.start - e.start.position;
         d.ecol = e.position.end - e.end.position;
-        d.unknown = e.position.start == (uint32_t)position_t::unknown_pos ||
+        d.unknown = (e.position.start == (uint32_t)position_t::unknown_pos && e.position.end == (uint32_t)position_t::unknown_pos) ||
                     e.position.start < e.start.position || e.position.end < e.end.position;
         out.push_back(std::move(d));
     };
